@@ -371,3 +371,28 @@ def level_names_are_looked_up_under_the_key_that_was_tested(ctx):
                               'refused although the table holds it', f)
     if not n:
         ctx.ok('frappy.logging:level table lookups', None, 'no membership test guarding a lookup under another key (lookups are guarded by their own KeyError handler)')
+
+
+@rule('C20.R8', min_instances=1)
+def a_configured_retention_of_zero_is_kept(ctx):
+    """frappy.logging reads the retention (`logfile_days`, `comlog_days`) with generalConfig.getint(key, default): the default is
+    applied for a MISSING key only.  `getint(key) or default` replaces a configured 0 by the default - a comlog configured to keep
+    nothing beyond the current file is rotated with a retention of 7 days (and the other way round: files the configuration asked
+    to keep are removed)"""
+    m = ctx.m
+    n = 0
+    hits = []
+    for q, fi in sorted(m.functions.items()):
+        if fi.module.name != 'frappy.logging':
+            continue
+        for x in body_walk(fi.node, into_lambda=True):
+            if isinstance(x, ast.Call) and call_attr(x) in ('getint', 'getfloat', 'get') and 'generalConfig' in src(x.func):
+                n += 1
+                ctx.analysed(fi)
+                par = getattr(x, 'parent', None)
+                if isinstance(par, ast.BoolOp) and isinstance(par.op, ast.Or) and x in par.values[:-1]:
+                    hits.append((fi, par))
+    if not n:
+        raise AnchorMissing('no generalConfig.getint(...) in frappy.logging')
+    ctx.check(not hits, 'frappy.logging:configured numbers are not replaced by their truth value', hits[0][1] if hits else None, f'{n} configuration reads, none followed by `or <default>`',
+              f'`{src(hits[0][1]) if hits else ""}`: a configured value of 0 is falsy and is replaced by the default', hits[0][0] if hits else None)
